@@ -63,7 +63,7 @@ FAULT_MODES = ["before",       # the request is not applied; the client gets an 
                "after",        # the request is applied; the response is lost
                "inflight"]     # the client gives up; the request reaches the store LATER (actor "L"), precondition evaluated then
 FAULT_EXCS = ["timeout", "500", "connclosed", "503", "oserror", "reqtimeout", "connect"]
-XREQ = ["DS.Model.Commit", "DS.Model.FlipFault"]
+XREQ = ["DS.Gen.GenCommit", "DS.Model.Commit", "DS.Model.FlipFault"]
 
 
 def _chooser_for(dev: Any):
